@@ -1,8 +1,10 @@
 SPECIFICATION Spec
 CONSTANTS NC = 2 NI = 2 Delays = {1} PassTimeouts = {} Filters = {"all"}
           Nesting = FALSE ReAdds = 0 ExtFut = FALSE ReapOwnOnly = TRUE LateCancel = TRUE
+          HScripts = {"none", "raise"} CoHandlers = FALSE ClaimFirst = TRUE
 INVARIANT TypeOK
 INVARIANT ExactlyOnce
+INVARIANT ClaimedOnce
 INVARIANT NoTimeoutAfterClaim
 INVARIANT OutstandingWillEnd
 INVARIANT TableAgrees
